@@ -235,7 +235,16 @@ def execute(alg, regs, step, snaps=None):
             op = step['op']
             syms = [sympy.Symbol(f's{k}') for k in kx]
             s = gen.mv_from(alg, kx, syms)
-            t = getattr(alg, op)(s, y) if op in BIN else getattr(alg, op)(s)
+            # on the shared algebra a symbolic result that was already produced by an identical step is kept and CALLED AGAIN (the same
+            # object, whatever other symbolic multivectors with the same blades were called in between)
+            store = getattr(alg, '_kvm_symresults', None)
+            skey = repr(sorted((k_, v_) for k_, v_ in step.items()))
+            if store is not None and skey in store:
+                t = store[skey]
+            else:
+                t = getattr(alg, op)(s, y) if op in BIN else getattr(alg, op)(s)
+                if store is not None:
+                    store[skey] = t
             if t.free_symbols:
                 r = t(**{f's{k}': v for k, v in zip(kx, vx) if sympy.Symbol(f's{k}') in t.free_symbols})
             else:
@@ -305,6 +314,7 @@ def instrument(alg):
     alg.numspace = monitors.RecordingNamespace(alg.numspace)
     # the algebra's own shared multivectors (basis blades, pseudoscalar) are 'previously returned multivectors' too
     alg._kvm_shared = [(m, list(m.values())) for m in list(alg.blades.blades.values())[:64]] + [(alg.pss, list(alg.pss.values()))]
+    alg._kvm_symresults = {}
     return alg
 
 
